@@ -67,6 +67,17 @@ def herdMeat (k : PerHead α) (m : Nat) (h : Herd α) : α :=
 def meatSpec (herds : List (Herd α)) (k : PerHead α) (wasteDist : α) (m : Nat) : α :=
   rsum (herds.map (herdMeat k m)) * (1 - wasteDist / 100.0)
 
+/-- per-head meat yields in billion kcals (`MeatAndDairy.__init__` + `initialize_this_country_animal_kcals`):
+    carcass weight (kg) × energy density (kcal/kg) / 1e9; chickens and pigs use the country's own carcass
+    weights, the three size classes the documented constants, the large class an optional override -/
+def perHeadOf (kgChicken kgPig : α) (kgLargeOverride : Option α) : PerHead α :=
+  let kgLarge : α := match kgLargeOverride with | some v => v | none => 269.7
+  { chicken := kgChicken * 1525.0 / 1e9,
+    pig := 3590.0 * kgPig / 1e9,
+    small := 1525.0 * 2.36 / 1e9,
+    medium := 3590.0 * 24.6 / 1e9,
+    large := 2750.0 * kgLarge / 1e9 }
+
 /-- Python's `"milk" in animal_type` -/
 def isMilk (animalType : String) : Bool := strContains animalType "milk"
 
